@@ -132,6 +132,15 @@ def trace_obligations(ctx):
                                            [qgates.sgate_of(info.make(qs, P0))], phase=True, gate=name)
                 attempt(f"dec_{pl}", a)
 
+            def lvl2():
+                pl, n, qs = [p for p in placements(info.nq) if p[0] in ("gap", "rot")][0]
+                g = info.make(qs, P0)
+                dec2 = [h for x in g.decompose() for h in x.decompose()]
+                tab.ob_product(f"C08_lvl2_{name}", k, n, [qgates.sgate_of(x) for x in dec2],
+                               [qgates.sgate_of(info.make(qs, P0))], phase=True, gate=name)
+            if name not in ("X", "CNOT", "TOFFOLI"):
+                attempt("lvl2", lvl2)
+
             if k:
                 def upd():
                     qs = list(range(info.nq))[::-1]
@@ -939,6 +948,159 @@ def independence_search(ctx):
 
 
 
+# -- the returned gates behave like freshly built gates ---------------------------
+
+FRESH_HELP = (
+    "import copy\n"
+    "from qibo.gates.abstract import Gate\n"
+    "def perm_conj(U, n, sigma):\n"
+    "    # operator after moving qubit q to sigma[q]\n"
+    "    N = 2**n; idx = []\n"
+    "    for i in range(N):\n"
+    "        j = 0\n"
+    "        for q in range(n):\n"
+    "            if (i >> (n-1-q)) & 1: j |= 1 << (n-1-sigma[q])\n"
+    "        idx.append(j)\n"
+    "    V = np.zeros_like(U)\n"
+    "    V[np.ix_(idx, idx)] = U\n"
+    "    return V\n"
+    "def derived(x, n, sigma):\n"
+    "    # (label, gate list, expected operator, exact?) for everything that rebuilds gate x\n"
+    "    U = full(x, n); I = {q: q for q in range(n)}\n"
+    "    out = [('dagger()', lambda: [x.dagger()], U.conj().T, True),\n"
+    "           ('copy.deepcopy', lambda: [copy.deepcopy(x)], U, True),\n"
+    "           ('on_qubits(identity map)', lambda: [x.on_qubits(I)], U, True),\n"
+    "           ('on_qubits(permutation)', lambda: [x.on_qubits({q: sigma[q] for q in range(n)})], perm_conj(U, n, sigma), True),\n"
+    "           ('Gate.from_dict(raw)', lambda: [Gate.from_dict(x.raw)], U, True),\n"
+    "           ('decompose() (second level)', lambda: x.decompose(), U, False)]\n"
+    "    return out\n"
+    "def check_fresh(dec, n, sigma, R):\n"
+    "    # every returned gate, then the list as a circuit; returns the first problem or None\n"
+    "    for k, x in enumerate(dec):\n"
+    "        for label, fn, E, exact in derived(x, n, sigma):\n"
+    "            try: P = prod(fn(), n)\n"
+    "            except NotImplementedError: continue\n"
+    "            good = np.allclose(P, E, atol=1e-9) if exact else same_up_to_phase(P, E)\n"
+    "            if not good: return f'{label} of returned gate #{k} {x.name}{tuple(x.qubits)} (init_args {x.init_args}) is not the operator of that gate'\n"
+    "    c = Circuit(n); c.add(list(dec)); U = prod(c.queue, n)\n"
+    "    if not same_up_to_phase(U, R): return 'the returned list is not the gate up to a global phase'\n"
+    "    tests = [('Circuit.decompose() of the decomposed circuit (second pass)', lambda: prod(c.decompose().queue, n), U, False),\n"
+    "             ('invert() of the decomposed circuit', lambda: prod(c.invert().queue, n) @ U, np.eye(2**n), True),\n"
+    "             ('copy(deep=True) of the decomposed circuit', lambda: prod(c.copy(deep=True).queue, n), U, True),\n"
+    "             ('Circuit.from_dict(raw) of the decomposed circuit', lambda: prod(Circuit.from_dict(c.raw).queue, n), U, True),\n"
+    "             ('unitary() of the decomposed circuit', lambda: np.asarray(c.unitary(nb)), U, True)]\n"
+    "    for label, fn, E, exact in tests:\n"
+    "        try: P = fn()\n"
+    "        except NotImplementedError: continue\n"
+    "        good = np.allclose(P, E, atol=1e-9) if exact else same_up_to_phase(P, E)\n"
+    "        if not good: return f'{label} is not the expected operator'\n"
+    "    return None\n"
+)
+_FR = {}
+
+
+def _fresh():
+    if not _FR:
+        exec(PRE + FRESH_HELP, _FR)
+    return _FR
+
+
+def fresh_search(ctx):
+    """the gates returned by decompose / standard_decompositions / Circuit.decompose must be
+    like freshly built gates: whatever rebuilds them (dagger, deepcopy, on_qubits, raw,
+    a second decompose level, invert / deep copy / second pass of the decomposed circuit)
+    must give the operator the returned gate has — on descending, non-adjacent and offset
+    placements of every decomposable class."""
+    from qibo import Circuit, gates
+
+    F = _fresh()
+    check_fresh = F["check_fresh"]
+    std = std_table()
+    rng = ctx.rng
+    bad = 0
+
+    def run_one(what, setup, dec_fn, n, R, broken):
+        nonlocal bad
+        sigma = list(range(n))
+        rng.shuffle(sigma)
+        key = f"decompose:stale-gates:{what}"
+        code = (PRE + FRESH_HELP + "from qibo.transpiler.decompositions import standard_decompositions\n" + setup +
+                f"sigma = {sigma}\nproblem = check_fresh(dec, n, sigma, R)\nassert problem is None, problem\n")
+        ctx.case(("fresh", what, n, tuple(sigma)))
+        try:
+            problem = check_fresh(dec_fn(), n, sigma, R)
+        except Exception as e:
+            bad += 1
+            ctx.fail(f"{key}:raises", f"rebuilding the gates returned for {what} raises {type(e).__name__}: {e}", code,
+                     observed=f"{type(e).__name__}: {e}", broken=["C08_search_fresh"] + broken)
+            return
+        if problem:
+            bad += 1
+            ctx.fail(key, f"{what}: {problem}", code, observed=problem, broken=["C08_search_fresh"] + broken)
+
+    for name, (info, own, intab) in decomposable_infos().items():
+        nq = info.nq
+        n = nq + 2
+        pls = [list(range(nq))[::-1], [q + 2 for q in range(nq)], [n - 1 - 2 * q if n - 1 - 2 * q >= 0 else q for q in range(nq)] if nq <= 2 else [3, 0, 2]]
+        if nq == 3:
+            n = 5
+            pls = [[2, 1, 0], [2, 3, 4], [4, 0, 2]]
+        pls.append(rng.sample(range(n), nq))
+        if not ctx.thorough:
+            pls = [pls[rng.randrange(3)], pls[3]]
+        for qs in pls:
+            if len(set(qs)) != nq:
+                continue
+            vals = [round(rng.uniform(-3, 3), 3) for _ in range(info.np)]
+            try:
+                g = info.make(qs, vals)
+                R = qgates.gate_full_matrix(g, n)
+            except Exception:
+                continue
+            expr = gate_expr(name, qs, vals)
+            calls = [(name, "g.decompose()", lambda g=g: g.decompose())]
+            if intab:
+                calls.append((f"table:{name}", "standard_decompositions(g)", lambda g=g: std(g)))
+            for what, src, fn in calls:
+                run_one(what, f"n = {n}\ng = {expr}\nR = full(g, n)\ndec = {src}\n", fn, n, R, obs_of(ctx, name))
+
+    # GeneralizedRBS away from the template qubits
+    for qi, qo in (([3], [1]), ([2, 0], [3]), ([1], [3, 2])):
+        n = 4
+        th, ph = round(rng.uniform(-3, 3), 3), round(rng.uniform(-3, 3), 3)
+        g = gates.GeneralizedRBS(qi, qo, th, ph)
+        run_one("GeneralizedRBS", f"n = {n}\ng = gates.GeneralizedRBS({qi}, {qo}, {th}, {ph})\nR = full(g, n)\ndec = g.decompose()\n",
+                lambda g=g: g.decompose(), n, qgates.gate_full_matrix(g, n), obs_of(ctx, "grbs"))
+
+    # multi-controlled X and the congruent Toffoli on shuffled labels
+    for (m, f) in ((3, 1), (4, 1)):
+        n = m + 1 + f
+        lab = list(range(n))
+        rng.shuffle(lab)
+        cs, t, fs = lab[:m], lab[m], lab[m + 1:]
+        for ut in (True, False):
+            g = gates.X(t).controlled_by(*cs)
+            run_one(f"mcx:{'toffoli' if ut else 'congruent'}",
+                    f"n = {n}\ng = gates.X({t}).controlled_by(*{cs})\nR = full(g, n)\ndec = g.decompose(*{fs}, use_toffolis={ut})\n",
+                    lambda g=g, fs=fs, ut=ut: g.decompose(*fs, use_toffolis=ut), n, qgates.gate_full_matrix(g, n), [])
+
+    # Circuit.decompose of a circuit placed away from qubits 0,1,…
+    for it in range(3 if ctx.thorough else 2):
+        n = 5
+        lab = rng.sample(range(1, n), 3)
+        recipe = [f"gates.CRY({lab[0]}, {lab[1]}, 0.7)", f"gates.U3({lab[2]}, 0.3, -1.2, 2.1)", f"gates.GIVENS({lab[2]}, {lab[0]}, -0.8)",
+                  f"gates.RZX({lab[1]}, {lab[2]}, 1.1)", f"gates.PRX({lab[0]}, 0.4, 2.2)", f"gates.CZ({lab[2]}, {lab[1]})"]
+        rng.shuffle(recipe)
+        build = f"n = {n}\nc0 = Circuit(n)\n" + "".join(f"c0.add({r})\n" for r in recipe)
+        loc = {}
+        exec("from qibo import Circuit, gates\n" + build, loc)
+        R = product(loc["c0"].queue, n)
+        run_one("Circuit.decompose", build + "R = prod(c0.queue, n)\ndec = list(c0.decompose().queue)\n",
+                lambda c0=loc["c0"]: list(c0.decompose().queue), n, R, [])
+    ctx.ob("C08_search_fresh", bad == 0, "search", f"{bad} failing cases" if bad else "")
+
+
+
 def run(ctx):
     MODULES, THEOREMS = registry(PROP)
     ctx.theorems = THEOREMS
@@ -951,5 +1113,6 @@ def run(ctx):
     grbs_search(ctx)
     circuit_search(ctx)
     independence_search(ctx)
+    fresh_search(ctx)
     ctx.trusted.append("the multi-controlled-X recursion is a hand model (QV/Model/XDecompose.lean) tied by exact gate-list equality with the real X.decompose for all m ≤ 7 (8 thorough), |free| ≤ m+1, permuted labels, both use_toffolis values, on every run")
     ctx.notes.append("per class with a decomposition: kernel obligations 'product of the real decompose() on symbolic parameters = phase • matrix' on ascending, descending, non-adjacent placements (and after a parameter update); numeric search over a parameter grid (0, ±π/2, ±π, 2π, …) × every placement in n ≤ 4 for decompose() and standard_decompositions(); controlled_by gates of every class; MCX exact unitaries through the real engine for m ≤ 7/8 with 0..m+1 free qubits; TOFFOLI.congruent; GeneralizedRBS up to 3+2 qubits; Circuit.decompose on random mixed circuits")
